@@ -12,6 +12,8 @@ import (
 	"net"
 	"net/http"
 	"net/http/httptest"
+	"net/http/httptrace"
+	"net/textproto"
 	"net/url"
 	"os"
 	"strconv"
@@ -319,6 +321,13 @@ func (t *Transport) RoundTrip(req *http.Request) (*http.Response, error) {
 			}
 		}}
 		sc.tupo = cloneTab(resp.Header)
+		if sc.status == 302 {
+			// the upstream first sends an informational response carrying the same (credential) headers:
+			// reverse_proxy copies them to the client's header map, writes the 1xx status and clears the map
+			if trace := httptrace.ContextClientTrace(req.Context()); trace != nil && trace.Got1xxResponse != nil {
+				_ = trace.Got1xxResponse(http.StatusEarlyHints, textproto.MIMEHeader(hdr.header()))
+			}
+		}
 		return resp, nil
 	case "rl", "rle":
 		r2 := req.Clone(req.Context())
@@ -420,6 +429,7 @@ func configJSON() string {
           "encoder":{"format":"filter","wrap":{"format":"json"},"fields":` + filterFields + `}}
  }},
  "apps":{"http":{"servers":{
+  "def":` + strings.Replace(serverJSON(39105, false, false), `"should_log_credentials":false,`, "", 1) + `,
   "off":` + serverJSON(39101, false, false) + `,
   "on":` + serverJSON(39102, true, false) + `,
   "offE":` + serverJSON(39103, false, true) + `,
@@ -524,6 +534,9 @@ func (sc *script) path() string {
 }
 
 func (sc *script) serverName() string {
+	if !sc.creds && sc.e == 0 && sc.rw == 0 {
+		return "def" // a server whose `logs` object does not mention should_log_credentials at all
+	}
 	n := "off"
 	if sc.creds {
 		n = "on"
